@@ -19,6 +19,7 @@ TDo(ev) ==
     [] ev.e = "Attach"    -> Attach(a[1], r[1])
     [] ev.e = "Send"      -> Send(a[1], a[3], a[4], a[5], a[6], r[1])
     [] ev.e = "Kick"      -> Kick(a[1], a[2])
+    [] ev.e = "Rewrite"   -> Rewrite(a[1])
     [] ev.e = "GCont"     -> GCont(a[1], r[1], r[2])
     [] ev.e = "GRecv"     -> GRecv(a[1], r[1])
     [] ev.e = "Accept"    -> Accept(a[1])
